@@ -266,6 +266,21 @@ def run_shard(shard):
                  "coupling_flow(3|2)": coupling_flow(key, base_dist=D.StandardNormal((3,)), cond_dim=2, flow_layers=1, nn_width=4),
                  "maf(3)": masked_autoregressive_flow(key, base_dist=D.StandardNormal((3,)), flow_layers=1, nn_width=4),
                  "Transformed(2,3)": D.Transformed(D.StandardNormal((2, 3)), B.Affine(jnp.zeros((2, 3))))}
+        # conditional distributions written through the documented extension point (subclass AbstractDistribution, define _sample /
+        # _log_prob) whose own code would happily broadcast a malformed condition: only the public methods can reject it
+        class ShiftedNormal(D.AbstractDistribution):
+            shape: tuple
+            cond_shape: tuple
+
+            def _log_prob(self, x, condition=None):
+                return -0.5 * jnp.sum((x - jnp.sum(condition)) ** 2)
+
+            def _sample(self, key, condition=None):
+                return jnp.sum(condition) + jr.normal(key, self.shape)
+
+        dists["extension-point ShiftedNormal(3|3)"] = ShiftedNormal((3,), (3,))
+        dists["extension-point ShiftedNormal(2|2,3)"] = ShiftedNormal((2,), (2, 3))
+        dists["extension-point ShiftedNormal(()|2)"] = ShiftedNormal((), (2,))
         names = list(dists)[(shard["extras"] - 1)::3]
         for nm in names:
             d = dists[nm]
@@ -298,6 +313,8 @@ def run_shard(shard):
                             ok, _ = must_raise(lambda: d.log_prob(jnp.zeros(shape), jnp.zeros(w)))
                         else:
                             ok, _ = must_raise(lambda: getattr(d, meth)(key, (), jnp.zeros(w)))
+                            if ok:
+                                ok, _ = must_raise(lambda: getattr(d, meth)(key, (2,), jnp.zeros(w)))
                         rec.count("distribution_wrong_shape_calls")
                         if not ok:
                             v("dist.accepted.wrong_condition_shape", f"{nm}.{meth} accepted a condition of shape {w} (cond_shape {cshape})", {"dist": nm, "origin": "dist"})
